@@ -1,4 +1,4 @@
-(* C09 driver: req / reqj / gen / conn / parse / jprint / scan / url / purl / get / put / sub *)
+(* C09 driver: sess / req / reqj / gen / conn / parse / jprint / scan / url / purl / get / put / sub *)
 open Drv
 module R = Request
 
@@ -93,5 +93,26 @@ let handle = function
   | "sub" :: h :: ev :: ids ->
     let rs = R.api_update_subscriptions (bytes_of_hex h) (ev = "1") (Stdlib.List.map id_of ids) in
     Stdlib.String.concat " " ("ok" :: Stdlib.List.map (fun r -> hex_of_bytes (R.render_req r)) rs)
+  | "sess" :: evs ->
+    (* events: C:<host> S L X R:<METH>:<target>:<kind>:<body>; one answer token per request:
+       raise | call:<payload>:<ctr before>:<chunk,chunk,...>; last token ctr:<final counter> *)
+    let module S = RequestSession in
+    let f1024 = nat_of_int 1024 in
+    let ev_of tok = match Stdlib.String.split_on_char ':' tok with
+      | ["C"; h] -> S.EConnect (bytes_of_hex h)
+      | ["S"] -> S.ESecure | ["L"] -> S.ELost | ["X"] -> S.EClose
+      | ["R"; m; t; kind; b] -> S.EReq (meth_of m, bytes_of_hex t, body_of kind b)
+      | _ -> failwith "ev" in
+    let st = ref S.conn_init and out = ref [] in
+    Stdlib.List.iter (fun tok ->
+        let before = !st.S.c_ctr in
+        let (st', obs) = S.step f1024 S.seal_id !st (ev_of tok) in
+        st := st';
+        Stdlib.List.iter (function
+            | S.ORaise -> out := "raise" :: !out
+            | S.OCall (p, chunks) ->
+              out := (Printf.sprintf "call:%s:%s:%s" (hex_of_bytes p) (dec_of_n before)
+                        (Stdlib.String.concat "," (Stdlib.List.map hex_of_bytes chunks))) :: !out) obs) evs;
+    Stdlib.String.concat " " (Stdlib.List.rev (("ctr:" ^ dec_of_n !st.S.c_ctr) :: !out))
   | _ -> "bad-request"
 let () = main_loop handle
